@@ -91,6 +91,20 @@ def _oracle(args):
     from lxml import etree
     rng = random.Random(seed)
     lines, provs = gen_case(rng)
+    # the author's indentation: every level has a width of its own (2, 3, 4 or 1 more than the level above), and now and then a tab stands
+    # between two words - a provision cut out of the document keeps its lines as they are, less the margin of its first line
+    steps = [0]
+    for _ in range(40): steps.append(steps[-1] + rng.choice([2, 2, 2, 3, 4, 1]))
+    def relayout(l):
+        body = l.lstrip(' ')
+        d = (len(l) - len(body)) // 2
+        if body and rng.random() < 0.06 and ' ' in body[1:-1] and '{{' not in body and not body.startswith(('FOOTNOTE', 'SUBHEADING', 'CROSSHEADING', 'P', 'ITEM', 'TC', 'TH', 'TR')):
+            i = body.index(' ', 1); body = body[:i] + '\t' + body[i + 1:] if body[:i].islower() else body
+        return ' ' * steps[d] + body
+    if seed % 3 == 0:
+        lines = [relayout(l) for l in lines]
+    else:
+        steps = [2 * i for i in range(41)]
     text = '\n'.join(lines) + '\n'
     if 'QUOTE' in text:
         return ('skip', None, 0)
@@ -107,7 +121,7 @@ def _oracle(args):
     checked = 0
     for pr, el in zip(provs, els):
         frag_lines = lines[pr.start:pr.end]
-        frag = '\n'.join(l[2 * pr.ind:] for l in frag_lines) + '\n'
+        frag = '\n'.join(l[steps[pr.ind]:] for l in frag_lines) + '\n'
         # prefix handed down: nearest identified ancestor's eId
         par = el.getparent()
         pfx = prefix
